@@ -12,9 +12,21 @@
 (*  - PickMask / RunBranch: an implementation-shaped model of the near-antipodal   *)
 (*    branch of sphdist (mask selection on the stacked coordinate array), checked  *)
 (*    against "the selected vectors are exactly the masked points" (BranchRefines);*)
+(*  - SCALE: the laws of Sphere.tla section 3a (elementwise = commutes with          *)
+(*    concatenation, cyclic repetition of a tile, broadcasting) are checked on      *)
+(*    every row of the lattice at small lengths (ScaleLaw); a blocked evaluation     *)
+(*    with a write-back of the large-angle correction (block size Bk, any n) is      *)
+(*    checked to refine the elementwise definition (ScaleMechRefines); the design    *)
+(*    of the exported scale cases (sizes at / across block boundaries x rotation of   *)
+(*    the class-cyclic tile x call shape x function/units) is checked to put every   *)
+(*    separation class on every index next to every block boundary (ScaleDesign);    *)
+(*  - TURNS: the wrap theorem for every pair of turn counts up to 10^6 and the       *)
+(*    theorems of section 3b on displaced longitudes; the exported rows of the       *)
+(*    turn design (function/units x k1 x k2 x swap x negative zero) are checked to   *)
+(*    cover every turn count with every function/units (TurnDesign);                 *)
 (*  - the export run (NextExport, DoExport = TRUE, -workers 1) prints the point    *)
 (*    lists and, per first point, the row of exact separations / dot products that *)
-(*    the adapter replays into the real code.                                      *)
+(*    the adapter replays into the real code, the tiles, scale cases and turn rows.*)
 EXTENDS Sphere, Json, SequencesExt
 
 CONSTANTS GCA,        \* integer degrees used as positions along each lattice circle
@@ -24,6 +36,12 @@ CONSTANTS GCA,        \* integer degrees used as positions along each lattice ci
           MaxD,       \* rational sphere: denominators <= MaxD
           NMaskMax,   \* branch model: array lengths 1..NMaskMax
           FixedAxis,  \* branch model: TRUE = mask applied to the point axis (repaired code)
+          FixedIndex, \* blocked model: TRUE = correction written back at lo + w (FALSE: at w)
+          TurnMags,   \* magnitudes of the multiples of 360 degrees added to a longitude
+          ScaleNs,    \* lengths of the large array calls
+          NScaleMax,  \* the scale laws are checked for lengths 0..NScaleMax
+          TileMax,    \* a tile holds at most TileMax pairs of each separation class
+          Thorough,   \* TRUE: full designs; FALSE: covering designs
           DoExport
 
 VARIABLES kind, i, j
@@ -47,7 +65,19 @@ ASSUME /\ \A p \in GCSet : GValid(p)
        /\ \A p, q \in GCSet : GKey(p) = GKey(q) => p = q
        /\ BMax < 16 /\ MaxD < 32
 
-Wraps  == {-1, 0, 1}
+Turns  == {0} \cup TurnMags \cup {-k : k \in TurnMags}
+Wraps  == Turns
+TurnNZ == SetToSortSeq(Turns \ {0}, LAMBDA a, b : a < b)
+NTn    == Len(TurnNZ)
+\* partner of the turn count k = TurnNZ[a]: pattern 0: (k, 0)  1: (0, k)  2: (k, k)  3: (k, -k)  4: (k, next)
+TurnPair(a, pt) == LET k == TurnNZ[a] IN
+    CASE pt = 0 -> <<k, 0>> [] pt = 1 -> <<0, k>> [] pt = 2 -> <<k, k>> [] pt = 3 -> <<k, -k>>
+      [] OTHER -> <<k, TurnNZ[(a % NTn) + 1]>>
+\* the pairs of turn counts for which the wrap theorem is checked on every lattice pair: all rows of the
+\* (thorough) design and all small ones
+WrapPairs == {TurnPair(a, pt) : a \in 1..NTn, pt \in 0..4} \cup ({-1, 0, 1} \X {-1, 0, 1})
+\* displacements of a longitude off the lattice: the eps part stands for an arbitrary tiny real number
+Disps  == {<<0, -2>>, <<0, 3>>, <<360000000, 0>>, <<360000000, 1>>}
 Shifts == {<<95, 0>>, <<0, 1>>, <<-90, 0>>, <<180, -1>>, <<217, 3>>}
 
 \* ---- behaviour -----------------------------------------------------------------------------
@@ -75,8 +105,10 @@ GCTheorems == kind = "gc2" =>
     LET p == G[i]  q == G[j] IN
     /\ GThmRange(p, q) /\ GThmSymmetric(p, q) /\ GThmZeroIffSame(p, q) /\ GThm180IffAntipode(p, q)
     /\ GThmWellDefined(p, q) /\ GThmAntipode(p, q) /\ GThmMirror(p, q)
-    /\ \A k1, k2 \in Wraps : GThmWrap(p, q, k1, k2)
+    /\ \A kk \in WrapPairs : GThmWrap(p, q, kk[1], kk[2])
     /\ \A s \in Shifts : GThmShift(p, q, s)
+    /\ \A s1, s2 \in Disps : GThmTurnEquator(p, q, s1, s2) /\ GThmTurnPole(p, q, s1, s2)
+    /\ \A s \in Disps : GThmTurnSameLon(p, q, s)
     /\ \A k \in 1..NG : (GDefined(p, G[k]) /\ GDefined(G[k], q)) =>
           /\ GThmTriangle(p, G[k], q) /\ GThmAdditive(p, G[k], q)
 
@@ -105,15 +137,124 @@ BranchWanted(n, mask) ==
     Ok([m \in 1..Cardinality(mask) |-> LET k == VSortSet(mask)[m] IN <<<<1, k>>, <<2, k>>, <<3, k>>>>])
 BranchRefines == kind = "branch" => BranchSelect(i, MaskOf(j, i)) = BranchWanted(i, MaskOf(j, i))
 
+\* ---- SCALE: tiles, laws at small scope, blocked mechanism, design of the large cases -----------
+FullRow(a)  == SelectSeq([k \in 1..NG |-> k], LAMBDA b : GDefined(G[a], G[b]))
+ClassRow(a, cl) == SelectSeq([k \in 1..NG |-> k], LAMBDA b : GDefined(G[a], G[b]) /\ GSepClass(G[a], G[b]) = cl)
+HasAllClasses(a) == \A cl \in {"zero", "near180", "small"} : \E b \in 1..NG : GDefined(G[a], G[b]) /\ GSepClass(G[a], G[b]) = cl
+\* the tile of first point a: second points in the endlessly repeated class order
+\* near180, zero, small (tile position t, 0-based, has class t % 3); its length is a multiple of 3,
+\* so the repetition keeps the order: element k of a big array has class (k + rot) % 3
+TileClass(t) == CASE t % 3 = 0 -> "near180" [] t % 3 = 1 -> "zero" [] OTHER -> "small"
+ScaleTile(a) ==
+    LET A == ClassRow(a, "near180")  Z == ClassRow(a, "zero")  O == ClassRow(a, "small")
+        T == 3 * VMin2(TileMax, VMax2(Len(A), VMax2(Len(Z), Len(O))))
+    IN [t1 \in 1..T |-> LET t == t1 - 1  L == IF t % 3 = 0 THEN A ELSE IF t % 3 = 1 THEN Z ELSE O
+                        IN L[((t \div 3) % Len(L)) + 1]]
+\* three first points: a pole, an equator point off the integer degrees, a point off the equator on a
+\* meridian circle (each must see all three classes: assumed below)
+IdxOf(p) == CHOOSE a \in 1..NG : G[a] = p
+ScaleFirst == << IdxOf(GPt(EDeg(VSetMin(PoleLons)), EDeg(90))),
+                 IdxOf(GEquatorPoint(<<VSetMin(GCA), 1>>)),
+                 IdxOf(GMeridianPoint(VSetMin(MerLons), <<VSetMin(GCA), 1>>)) >>
+ASSUME /\ GIsPole(G[ScaleFirst[1]]) /\ GOnEquator(G[ScaleFirst[2]]) /\ G[ScaleFirst[2]].lon[2] # 0
+       /\ ~GIsPole(G[ScaleFirst[3]]) /\ ~GOnEquator(G[ScaleFirst[3]])
+ASSUME \A m \in {1, 2, 3} : HasAllClasses(ScaleFirst[m])
+ASSUME \A m \in {1, 2, 3} : LET a == ScaleFirst[m]  tl == ScaleTile(a)
+                            IN \A t1 \in 1..Len(tl) : GSepClass(G[a], G[tl[t1]]) = TileClass(t1 - 1)
+
+\* the laws on every row, at small lengths (state gc1: i = first point)
+ScaleLaw == kind = "gc1" =>
+    LET row == FullRow(i)
+        L   == VMin2(Len(row), 4)
+        qs  == [k \in 1..L |-> G[row[k]]]
+        ps  == [k \in 1..L |-> IF k % 2 = 1 THEN G[i] ELSE G[row[k]]]      \* a varying first argument
+    IN /\ \A cut \in 0..L : GThmConcat(SubSeq(ps, 1, cut), SubSeq(qs, 1, cut), SubSeq(ps, cut + 1, L), SubSeq(qs, cut + 1, L))
+       /\ \A n \in 0..NScaleMax, rot \in 0..L : GThmCycle(ps, qs, n, rot) /\ GThmBroadcast(G[i], qs, n, rot)
+ASSUME \A n \in 0..(2 * NScaleMax), T \in 1..4, rot \in 0..5 : \A t \in 0..(T - 1) : GThmCycleCount(n, T, rot, t)
+
+\* implementation-shaped model of an evaluation in blocks of Bk pairs: the chord value of every pair of
+\* the block is stored at lo+1..hi, then the pairs of the block selected by the mask get the
+\* cross-product value.  r is the block-relative index of a selected pair (position lo + r); the token
+\* <<formula, k>> is "formula evaluated on pair k".  The elementwise definition wants
+\* <<"cross", k>> on the mask and <<"chord", k>> elsewhere, whatever the block size.
+RECURSIVE BlockGo(_, _, _, _, _)
+BlockGo(n, mask, Bk, lo, dis) ==
+    IF lo >= n THEN dis
+    ELSE LET hi == VMin2(lo + Bk, n)
+             d1 == [k \in 1..n |-> IF k > lo /\ k <= hi THEN <<"chord", k>> ELSE dis[k]]
+             d2 == [k \in 1..n |->
+                      IF FixedIndex THEN (IF k > lo /\ k <= hi /\ k \in mask THEN <<"cross", k>> ELSE d1[k])
+                      ELSE (IF k <= hi - lo /\ (lo + k) \in mask THEN <<"cross", lo + k>> ELSE d1[k])]
+         IN BlockGo(n, mask, Bk, hi, d2)
+BlockEval(n, mask, Bk) == BlockGo(n, mask, Bk, 0, [k \in 1..n |-> <<"empty", k>>])
+BlockWanted(n, mask)   == [k \in 1..n |-> <<IF k \in mask THEN "cross" ELSE "chord", k>>]
+ScaleMechRefines == kind = "branch" =>
+    \A Bk \in 1..(i + 1) : BlockEval(i, MaskOf(j, i), Bk) = BlockWanted(i, MaskOf(j, i))
+
+FnUnits == << [fn |-> "sphdist", uin |-> "deg", uout |-> "deg"], [fn |-> "sphdist", uin |-> "deg", uout |-> "rad"],
+              [fn |-> "sphdist", uin |-> "rad", uout |-> "deg"], [fn |-> "sphdist", uin |-> "rad", uout |-> "rad"],
+              [fn |-> "gcirc", uin |-> "deg", uout |-> "rad"] >>
+NFU == Len(FnUnits)
+
+\* the large cases: length n x rotation of the tile x call shape (1 = four arrays over the three tiles,
+\* 2 = one point against arrays) x function/units (covering design unless Thorough) x eps x swap
+ScaleSeq == SetToSortSeq(ScaleNs, LAMBDA a, b : a < b)
+NSz      == Len(ScaleSeq)
+ScaleCase(s, rot, sh, f) ==
+    [n |-> ScaleSeq[s], rot |-> rot, shape |-> sh, f |-> f,
+     fn |-> FnUnits[f].fn, uin |-> FnUnits[f].uin, uout |-> FnUnits[f].uout,
+     e |-> (s + 2 * rot + sh) % 5, swap |-> (s + rot) % 2,
+     firsts |-> IF sh = 2 THEN <<ScaleFirst[((s + rot) % 3) + 1]>>
+                ELSE [k \in 1..3 |-> ScaleFirst[((s + rot + k) % 3) + 1]]]
+ScaleCases ==
+    LET all == {<<s, rot, sh, f>> \in (1..NSz) \X (0..2) \X (1..2) \X (1..NFU) :
+                    Thorough \/ f = ((2 * s + rot + sh) % NFU) + 1}
+        sq  == SetToSortSeq(all, LAMBDA x, y : ((x[1] * 3 + x[2]) * 3 + x[3]) * 8 + x[4] < ((y[1] * 3 + y[2]) * 3 + y[3]) * 8 + y[4])
+    IN [m \in 1..Len(sq) |-> ScaleCase(sq[m][1], sq[m][2], sq[m][3], sq[m][4])]
+BlockSizes == {1024, 65536, 262144, 1048576, 2097152}
+\* the design puts every separation class (k + rot) % 3 on the last index of a block, on the first
+\* index of the next and on the one after, for every block size, in both call shapes, and runs every
+\* function/units in both shapes beyond the largest block
+ScaleDesign ==
+    LET cs == ScaleCases IN
+    /\ \A B \in BlockSizes : (\E n \in ScaleNs : n > B + 1) =>
+          \A d \in {-1, 0, 1}, c \in 0..2, sh \in 1..2 :
+              \E m \in 1..Len(cs) : cs[m].shape = sh /\ cs[m].n > B + d /\ (B + d + cs[m].rot) % 3 = c
+    /\ \A f \in 1..NFU, sh \in 1..2 : \E m \in 1..Len(cs) : cs[m].f = f /\ cs[m].shape = sh /\ cs[m].n > 1048576
+    /\ \A n \in ScaleNs, rot \in 0..2, sh \in 1..2 : \E m \in 1..Len(cs) : cs[m].n = n /\ cs[m].rot = rot /\ cs[m].shape = sh
+ASSUME ScaleDesign
+
+\* ---- TURNS: rows of the many-turn design --------------------------------------------------------
+TurnRow(a, f, pt) ==
+    [f |-> f, fn |-> FnUnits[f].fn, uin |-> FnUnits[f].uin, uout |-> FnUnits[f].uout, pt |-> pt,
+     k1 |-> TurnPair(a, pt)[1], k2 |-> TurnPair(a, pt)[2], swap |-> (a + pt) % 2, nz |-> ((a + f) \div 2) % 2]
+TurnRows ==
+    LET all == {<<a, f, pt>> \in (1..NTn) \X (1..NFU) \X (0..4) : Thorough \/ pt = (a + f) % 5}
+        sq  == SetToSortSeq(all, LAMBDA x, y : (x[1] * 8 + x[2]) * 8 + x[3] < (y[1] * 8 + y[2]) * 8 + y[3])
+    IN [m \in 1..Len(sq) |-> TurnRow(sq[m][1], sq[m][2], sq[m][3])]
+TurnDesign ==
+    LET rs == TurnRows IN
+    /\ \A m \in 1..Len(rs) : rs[m].k1 \in Turns /\ rs[m].k2 \in Turns
+    /\ \A a \in 1..NTn, f \in 1..NFU : \E m \in 1..Len(rs) : rs[m].f = f /\ TurnNZ[a] \in {rs[m].k1, rs[m].k2}
+    /\ NTn >= 5 => \A f \in 1..NFU, pt \in 0..4 : \E m \in 1..Len(rs) : rs[m].f = f /\ rs[m].pt = pt
+    /\ NTn >= 5 => \A f \in 1..NFU, b \in {0, 1} : /\ \E m \in 1..Len(rs) : rs[m].f = f /\ rs[m].nz = b
+                                                   /\ \E m \in 1..Len(rs) : rs[m].f = f /\ rs[m].swap = b
+ASSUME TurnDesign
+
 \* ---- export ----------------------------------------------------------------------------------------
 \* (every exported value is a JSON object: TLC's pretty printer wraps long strings that contain no
 \* escaped quote over several lines, which the harness could not parse)
 GCRow(a) == LET js == SelectSeq([k \in 1..(NG - a + 1) |-> a + k - 1], LAMBDA b : GDefined(G[a], G[b]))
             IN [i |-> a, js |-> js, seps |-> [k \in 1..Len(js) |-> SepGC(G[a], G[js[k]])]]
+TileRec(a) == LET tl == ScaleTile(a)
+              IN [i |-> a, js |-> tl, seps |-> [t \in 1..Len(tl) |-> SepGC(G[a], G[tl[t]])]]
 RSRow(a) == [i |-> a, dots |-> [k \in 1..(NS - a + 1) |-> SDot(S[a], S[a + k - 1])]]
 
 Export == DoExport =>
-    /\ kind = "start" => PrintT(<<"GCPTS", ToJson([pts |-> G])>>) /\ PrintT(<<"RSPTS", ToJson([pts |-> S])>>)
+    /\ kind = "start" => /\ PrintT(<<"GCPTS", ToJson([pts |-> G])>>) /\ PrintT(<<"RSPTS", ToJson([pts |-> S])>>)
+                         /\ \A m \in 1..3 : PrintT(<<"TILE", ToJson(TileRec(ScaleFirst[m]))>>)
+                         /\ PrintT(<<"SCALE", ToJson([cases |-> ScaleCases])>>)
+                         /\ PrintT(<<"TURNROWS", ToJson([rows |-> TurnRows])>>)
     /\ kind = "gc1" => PrintT(<<"GCROW", ToJson(GCRow(i))>>)
     /\ kind = "rs1" => PrintT(<<"RSROW", ToJson(RSRow(i))>>)
 =============================================================================
